@@ -1,4 +1,4 @@
-def Lanelet_interpolate_position.while1 (cv rv lv : List CR.Arc.Pt) (dist : List Rat) (fuel : Nat) (distance : Rat)  :=
+@[simp] def Lanelet_interpolate_position.while1 (cv rv lv : List CR.Arc.Pt) (dist : List Rat) (fuel : Nat) (distance : Rat)  :=
   CR.PyC20.mkLoopM (fun idx => do return (!decide ((← CR.Py.getItem dist idx) ≤ distance))) (fun idx => do
     let idx := idx + 1
     return idx)
